@@ -236,6 +236,7 @@ var timeCounter int
 func (e *Engine) timeNow(c *Config) Value {
 	timeCounter++
 	d := Var(fmt.Sprintf("dt_%d", timeCounter), 64)
+	varBounds[d.name] = [2]int64{0, 3}
 	e.constraints = append(e.constraints, Ult(d, BV(4, 64)))
 	cl := e.clockCell()
 	nv := Add(termOf(cl), d)
